@@ -282,4 +282,7 @@ def finish_result(res, world, log, sig):
     res.seam_counts = sc
     for f in world.plan.fired:
         res.fired(f["seam"] + ":" + f["kind"])
+    if res.violations:
+        # the schedule-and-fault trace that goes into the replay file (last 400 seam events)
+        res.events = [list(e) for e in log.events[-400:]]
     return res
